@@ -4,6 +4,7 @@
 -/
 import PV.Model.Corr
 import PV.Proofs.CorrLemmas
+import PV.Props.C15Alg
 
 namespace PV
 open Corr Scalar
